@@ -13,7 +13,7 @@ import (
 	"testing"
 	"time"
 
-	_ "github.com/risor-io/risor/verif/checks"
+	"github.com/risor-io/risor/verif/checks"
 	"github.com/risor-io/risor/verif/fw"
 	"github.com/risor-io/risor/verif/sim"
 )
@@ -149,6 +149,7 @@ func handleViolation(t *testing.T, sc *fw.Scenario, tier string, base uint64, in
 	rf := &fw.ReplayFile{
 		Property: sc.Property, Scenario: sc.Name, Tier: tier, BaseSeed: base, Index: index, RunSeed: seed,
 		Violation: *rc.Violation, Digest: rc.Digest, Streams: orig, Rendering: rc.Sample, DrawsTotal: fw.TotalDraws(orig),
+		RaceBuild: checks.IsRaceBuild(),
 	}
 	// The recorded tape must reproduce before minimising is meaningful.
 	if !minimise {
